@@ -23,7 +23,7 @@
 From Coq Require Import List NArith Bool Arith Strings.String.
 From Atlas Require Import Base.Bytes Dir.DirModel Dir.DirProofs Dir.DirDetect Dir.DirEdits Dir.DirGlob
   Dir.DirRefuted Dir.DirWriters Dir.DirExact Dir.DirReason Dir.DirToyHash
-  Dir.DirConsumersModel Dir.DirConsumers.
+  Dir.DirConsumersModel Dir.DirConsumers Dir.DirFormatsModel Dir.DirFormats Dir.DirReasonIgn Dir.DirFlywayEdit.
 Import ListNotations.
 
 Section C06.
@@ -392,6 +392,146 @@ Theorem C06_migrate_hash_repairs :
   forall st : store, store_ok st = true -> validate_store HS (migrate_hash HS st) = VOk.
 Proof. exact (migrate_hash_repairs_lemma HS HS_shape). Qed.
 
+(** * Round 5: directory formats, archive round trip
+
+    [tree] = a local directory (flat list of path components x regular file |
+    directory); [format_files f t] = what [Files()] of the directory type that
+    DirURL opens for [?format=f] returns (LocalDir / GolangMigrateDir /
+    GooseDir / FlywayDir / LiquibaseDir / DBMateDir), [validate_tree] =
+    [migrate.Validate] on it, [write_sum_tree] = WriteSumFile(dir, dir.Checksum()).
+
+    For every format: hashing and then validating succeeds, whatever else lies
+    in the tree (sub-directories, hidden directories, *.down.sql, U files,
+    non-sql files) -- provided Files() itself works and the names read survive
+    the sum format ([names_ok]). *)
+Theorem C06_format_hash_then_validate :
+  forall (f : format) (t : tree) (fs : list file),
+  format_files f t = FOk fs -> names_ok fs = true ->
+  exists t', write_sum_tree HS f t = Some t' /\ format_files f t' = FOk fs /\
+             validate_tree HS f t' = TV VOk.
+Proof. exact (format_hash_validates HS HS_shape). Qed.
+
+(** Every change of what the format reads (the list Files() returns: names,
+    order, bytes) is refused with a *ChecksumError, or a collision is
+    exhibited -- for all six formats, for any two trees. *)
+Theorem C06_format_change_detected :
+  forall (f : format) (t' : tree) (fs fs' : list file),
+  format_files f t' = FOk fs' ->
+  names_ok fs = true -> NoDup (map fst fs) ->
+  names_wf fs = true -> names_wf fs' = true -> no_ignored fs = true -> no_ignored fs' = true ->
+  fs' <> fs ->
+  exists v, validate_tree HS f (tree_put_sum t' (marshal HS (newhash HS fs))) = TV v /\
+            (is_checksum_error v \/ collision HS (hash_inputs HS fs ++ hash_inputs HS fs')).
+Proof. exact (format_change_detected HS HS_shape). Qed.
+
+(** The literal "fails after any change" is false at the level of the
+    directory tree, by design of each format: an entry the format does not
+    read ([reads f e = false]: for golang-migrate everything but the root's
+    *.up.sql -- the *.down.sql files; for Flyway the U (undo) files, files
+    without the V/B/R prefix, everything below a hidden directory; for the
+    others everything but the root's *.sql, in particular every sub-directory)
+    can be added, removed or edited without any effect on Files() or Validate.
+    Such an entry is not executed either (the Executor runs Files()), so this
+    is the exact coverage, not a finding. *)
+Theorem C06_format_unread_invisible :
+  forall (f : format) (t1 : tree) (e : fsentry) (t2 : tree),
+  reads f e = false -> is_sum_file e = false ->
+  format_files f (t1 ++ e :: t2) = format_files f (t1 ++ t2) /\
+  validate_tree HS f (t1 ++ e :: t2) = validate_tree HS f (t1 ++ t2).
+Proof. exact (format_unread_invisible HS). Qed.
+
+(** ArchiveDir then UnarchiveDir: for a directory whose Files() are *.sql
+    names in name order (every MemDir / LocalDir and every glob format) the
+    unarchived MemDir has the same files and the same Validate outcome. *)
+Theorem C06_archive_roundtrip :
+  forall (sum : option bytes) (fs : list file),
+  all_sql fs = true -> sorted_strict fs = true ->
+  files_of (unarchive (archive sum fs)) = fs /\
+  validate_store HS (unarchive (archive sum fs)) = validate HS fs sum.
+Proof. exact (archive_roundtrip HS). Qed.
+
+(** ... and false for Flyway, whose Files() are in version order: the valid
+    directory {V1__a.sql, V10__c.sql} does not validate after the round trip
+    (or a collision is exhibited).  Known finding C06-archive-flyway-order. *)
+Theorem C06_archive_roundtrip_flyway_refuted :
+  exists (t : tree) (arc : list file),
+    validate_tree HS FFlyway t = TV VOk /\ archive_tree FFlyway t = Some arc /\
+    (validate_store HS (unarchive arc) <> VOk \/
+     collision HS (hash_inputs HS wf_d ++ hash_inputs HS wf_d')).
+Proof. exact (archive_flyway_refuted HS HS_shape). Qed.
+
+(** * Round 5: what Validate reports when the directory holds sum-ignored files, and for compound edits
+
+    Content edit of a hashed file at any position of a directory with
+    sum-ignored files anywhere (in front of it, behind it): the error names
+    that file with ReasonEdited; line and total count the *hashed* files
+    ([hashed_names]), the position the sum lines in front ([possum]). *)
+Theorem C06_reason_edited_ignored :
+  forall (a : list file) (n c c' : bytes) (b : list file),
+  let d := a ++ (n, c) :: b in let d' := a ++ (n, c') :: b in
+  names_ok d = true -> names_wf d = true -> NoDup (map fst d) ->
+  sum_ignored c = false -> sum_ignored c' = false -> c' <> c ->
+  validate HS d' (Some (marshal HS (newhash HS d)))
+    = VChecksum (List.length (hashed_names a) + 2) (List.length (hashed_names d))
+                (48 + possum (newhash HS a)) n Edited \/
+  collision HS (hash_inputs HS d ++ hash_inputs HS d').
+Proof. exact (reason_edited_ign HS HS_shape). Qed.
+
+(** ANY edit -- compound, any number of files, with or without sum-ignored
+    files: if [P] is a common prefix of the sum lines written for [d] and of
+    the lines recomputed for [d'], and the next written line [h] is not the
+    next recomputed one, then Validate either accepts (the header sums agree:
+    by C06_detect only with equal covered streams or a collision) or reports
+    exactly [classify] of that first differing line: line |P|+2, position
+    48 + possum P, and file/reason = h's file Removed if its name is gone,
+    Edited if it is still at index |P|, else the file now at index |P| Added. *)
+Theorem C06_reason_first_difference :
+  forall (d d' : list file) (P : list entry) (h : entry) (R R' : list entry),
+  names_ok d = true ->
+  newhash HS d = P ++ h :: R -> newhash HS d' = P ++ R' -> hd_error R' <> Some h ->
+  validate HS d' (Some (marshal HS (newhash HS d))) = VOk \/
+  validate HS d' (Some (marshal HS (newhash HS d)))
+    = classify (newhash HS d') h (List.length P) (48 + possum P) (List.length (newhash HS d)).
+Proof. exact (reason_first_difference HS HS_shape). Qed.
+
+(** ... and when every written line still matches but the directory has more
+    hashed files: the first extra file, ReasonAdded, line total+2. *)
+Theorem C06_reason_trailing_added :
+  forall (d d' : list file) (x : entry) (R' : list entry),
+  names_ok d = true ->
+  newhash HS d' = newhash HS d ++ x :: R' ->
+  validate HS d' (Some (marshal HS (newhash HS d))) = VOk \/
+  validate HS d' (Some (marshal HS (newhash HS d)))
+    = VChecksum (List.length (newhash HS d) + 2) (List.length (newhash HS d))
+                (48 + possum (newhash HS d)) (fst x) Added.
+Proof. exact (reason_trailing_added HS HS_shape). Qed.
+
+(** * Round 5: the path of every PreRunE up to Validate (dirFormatBC, cmdmigrate.Dir / DirURL, checkDir)
+
+    [check_dir_url parse_ok scheme fmt flag is_dir t]: [parse_ok] = url.Parse
+    succeeded, [fmt] = the URL's format parameter if present, [flag] =
+    --dir-format.  Validate is reached only when the URL parsed, the scheme
+    is mem or file, the directory exists and the format *named* -- by the URL,
+    by the flag only when the URL names none -- is a known one; and then it
+    runs on that format's reader.  Every other arm is an error outcome: no
+    fallback to the default reader for an unknown format. *)
+Theorem C06_check_dir_before_validate :
+  forall (parse_ok : bool) (scheme : bytes) (fmt : option bytes) (flag : bytes) (is_dir : bool) (t : tree) (v : tvres),
+  check_dir_url HS parse_ok scheme fmt flag is_dir t = PValidated v ->
+  parse_ok = true /\
+  ((scheme = s_mem /\ v = TV VOk) \/
+   (scheme = s_file /\ is_dir = true /\
+    exists f, parse_format (chosen_format fmt flag) = Some f /\ v = validate_tree HS f t)).
+Proof. exact (check_dir_validated HS). Qed.
+
+Theorem C06_check_dir_unknown_format_refused :
+  forall (x flag flag' : bytes) (is_dir : bool) (t : tree) (scheme : bytes),
+  (parse_format x = None -> check_dir_url HS true s_file (Some x) flag is_dir t = PErrOpen) /\
+  check_dir_url HS true scheme (Some x) flag is_dir t = check_dir_url HS true scheme (Some x) flag' is_dir t.
+Proof.
+  intros. split; [apply check_dir_unknown_format|apply check_dir_url_format_wins].
+Qed.
+
 End C06.
 
 (** What the decidable name predicates used above mean. *)
@@ -401,6 +541,64 @@ Theorem C06_name_predicates_spec :
   (forall d, all_sql d = true <-> forall f, In f d -> exists p, fst f = p ++ s_sql) /\
   (forall n, name_ok n = true <-> trim_space n = n /\ no_nl n).
 Proof. exact (conj name_wf_spec (conj all_sql_spec name_ok_spec)). Qed.
+
+(** Which files the five glob formats read: exactly the root's regular files
+    whose name has the suffix (".up.sql" for golang-migrate, ".sql" otherwise). *)
+Theorem C06_format_reads_spec :
+  forall (f : format) (t : tree) (fs : list file) (n c : bytes),
+  f <> FFlyway -> format_files f t = FOk fs ->
+  (In (n, c) fs <-> In ([n], KFile c) t /\ ends_with (glob_suffix f) n = true).
+Proof.
+  intros f t fs n c NF H. rewrite format_files_glob in H by exact NF. exact (glob_files_in _ t fs n c H).
+Qed.
+
+(** An edit of the bytes of a file such a format reads changes Files() (so
+    [C06_format_change_detected] applies: it is refused). *)
+Theorem C06_format_read_edit_changes :
+  forall (f : format) (t1 t2 : tree) (n c c' : bytes) (fs fs' : list file),
+  f <> FFlyway ->
+  reads f ([n], KFile c) = true -> c <> c' ->
+  format_files f (t1 ++ ([n], KFile c) :: t2) = FOk fs ->
+  format_files f (t1 ++ ([n], KFile c') :: t2) = FOk fs' ->
+  NoDup (map fst fs') -> fs' <> fs.
+Proof. exact glob_read_edit_changes. Qed.
+
+(** The same for Flyway: FlywayDir.Files selects and orders by path only
+    ([flyway_selected]: the files that survive the baseline logic, before the
+    paths are joined), so an edit of the bytes of a selected file -- at a
+    path that occurs once in the tree -- changes Files(), and
+    [C06_format_change_detected] refuses it. *)
+Theorem C06_flyway_read_edit_changes :
+  forall (t1 t2 : tree) (p : list bytes) (c c' : bytes),
+  ~ In p (map fst (t1 ++ t2)) ->
+  In (p, c) (flyway_selected (t1 ++ (p, KFile c) :: t2)) -> c <> c' ->
+  flyway_files (t1 ++ (p, KFile c') :: t2) <> flyway_files (t1 ++ (p, KFile c) :: t2).
+Proof. exact flyway_read_edit_changes. Qed.
+
+(** FlywayDir.Files returns nothing but regular V/B/R *.sql files outside
+    hidden directories, under their slash-joined path, with their bytes. *)
+Theorem C06_flyway_reads_only_candidates :
+  forall (t : tree) (n c : bytes),
+  In (n, c) (flyway_files t) ->
+  exists e p, In e t /\ flyway_candidate e = Some (p, c) /\ n = join_path p.
+Proof. exact flyway_files_sound. Qed.
+
+(** FilesFromLastCheckpoint never fails with ErrCheckpointNotFound on the
+    directory's own Files(); it returns the suffix that starts at the last
+    checkpoint file (no checkpoint after its head), everything if there is none. *)
+Theorem C06_files_from_last_checkpoint :
+  forall (is_ck : file -> bool) (fs : list file),
+  exists a s, fs = a ++ s /\ files_from_last_checkpoint is_ck fs = Some s /\
+    existsb is_ck (tl s) = false /\
+    (existsb is_ck fs = true -> exists k r, s = k :: r /\ is_ck k = true) /\
+    (existsb is_ck fs = false -> s = fs).
+Proof.
+  intros is_ck fs. destruct (from_last_ck_suffix is_ck fs) as [a E].
+  exists a, (from_last_ck is_ck fs). split; [exact E|].
+  split; [apply files_from_last_checkpoint_spec|].
+  split; [apply from_last_ck_tail|].
+  split; [apply from_last_ck_head|apply from_last_ck_none].
+Qed.
 
 (** The section premise is satisfiable (the toy function is not collision
     free; no theorem needs that). *)
@@ -439,6 +637,21 @@ Print Assumptions C06_consumers_accept_untouched.
 Print Assumptions C06_execute_to_before_checkpoint_unvalidated.
 Print Assumptions C06_consumers_exempt_refuted.
 Print Assumptions C06_migrate_hash_repairs.
+Print Assumptions C06_format_hash_then_validate.
+Print Assumptions C06_format_change_detected.
+Print Assumptions C06_format_unread_invisible.
+Print Assumptions C06_archive_roundtrip.
+Print Assumptions C06_archive_roundtrip_flyway_refuted.
+Print Assumptions C06_format_reads_spec.
+Print Assumptions C06_format_read_edit_changes.
+Print Assumptions C06_flyway_reads_only_candidates.
+Print Assumptions C06_flyway_read_edit_changes.
+Print Assumptions C06_files_from_last_checkpoint.
+Print Assumptions C06_reason_edited_ignored.
+Print Assumptions C06_reason_first_difference.
+Print Assumptions C06_reason_trailing_added.
+Print Assumptions C06_check_dir_before_validate.
+Print Assumptions C06_check_dir_unknown_format_refused.
 Print Assumptions C06_hash_shape_satisfiable.
 
 (** * Non-vacuity: concrete inputs meeting the hypotheses (toy hash) *)
@@ -560,3 +773,94 @@ Example ex_consumers :
   (* migrate hash repairs *)
   store_ok ex_st_edit = true /\ validate_store toy_hs (migrate_hash toy_hs ex_st_edit) = VOk.
 Proof. vm_compute. repeat split; try reflexivity; discriminate. Qed.
+
+(* round 5: formats.  One tree seen through golang-migrate, atlas and Flyway *)
+Definition ex_tree : tree :=
+  [([bs "1.up.sql"], KFile (bs "A;")); ([bs "1.down.sql"], KFile (bs "a;")); ([bs "2.up.sql"], KFile (bs "B;"));
+   ([bs "a.txt"], KFile (bs "t")); ([bs "sub"; bs "3.sql"], KFile (bs "S;"));
+   ([bs "V10__c.sql"], KFile (bs "C;")); ([bs "V2__b.sql"], KFile (bs "B;")); ([bs "U2__b.sql"], KFile (bs "u;"));
+   ([bs ".git"; bs "V7__h.sql"], KFile (bs "H;")); ([bs "sub"; bs "V3__s.sql"], KFile (bs "S3;")); ([bs "R__r.sql"], KFile (bs "R;"))].
+Definition ex_gm : list file := [(bs "1.up.sql", bs "A;"); (bs "2.up.sql", bs "B;")].
+Definition ex_fly : list file :=
+  [(bs "V2__b.sql", bs "B;"); (bs "sub/V3__s.sql", bs "S3;"); (bs "V10__c.sql", bs "C;"); (bs "R__r.sql", bs "R;")].
+Definition ex_edit (t : tree) (p : list bytes) (c : bytes) : tree :=
+  map (fun e => if list_eq_dec bytes_eq_dec (fst e) p then (p, KFile c) else e) t.
+Example ex_formats :
+  format_files FGolangMigrate ex_tree = FOk ex_gm /\ names_ok ex_gm = true /\ names_wf ex_gm = true /\ no_ignored ex_gm = true /\
+  format_files FFlyway ex_tree = FOk ex_fly /\ names_ok ex_fly = true /\ names_wf ex_fly = true /\
+  (* hashed by the format: validates (C06_format_hash_then_validate) *)
+  forallb (fun f => match write_sum_tree toy_hs f ex_tree with
+                    | Some t' => match validate_tree toy_hs f t' with TV VOk => true | _ => false end
+                    | None => false
+                    end) [FAtlas; FGolangMigrate; FGoose; FFlyway; FLiquibase; FDBMate] = true /\
+  (* the down file is not read by golang-migrate: editing it is invisible (C06_format_unread_invisible) ... *)
+  reads FGolangMigrate ([bs "1.down.sql"], KFile (bs "a;")) = false /\
+  validate_tree toy_hs FGolangMigrate (tree_put_sum (ex_edit ex_tree [bs "1.down.sql"] (bs "DROP;")) (marshal toy_hs (newhash toy_hs ex_gm))) = TV VOk /\
+  (* ... editing the up file is refused (C06_format_read_edit_changes + C06_format_change_detected) *)
+  reads FGolangMigrate ([bs "1.up.sql"], KFile (bs "A;")) = true /\
+  validate_tree toy_hs FGolangMigrate (tree_put_sum (ex_edit ex_tree [bs "1.up.sql"] (bs "X;")) (marshal toy_hs (newhash toy_hs ex_gm)))
+    = TV (VChecksum 2 2 48 (bs "1.up.sql") Edited) /\
+  (* Flyway: the undo file and the hidden directory are unread, the file in the sub-directory is read *)
+  reads FFlyway ([bs "U2__b.sql"], KFile (bs "u;")) = false /\ reads FFlyway ([bs ".git"; bs "V7__h.sql"], KFile (bs "H;")) = false /\
+  validate_tree toy_hs FFlyway (tree_put_sum (ex_edit ex_tree [bs "sub"; bs "V3__s.sql"] (bs "X;")) (marshal toy_hs (newhash toy_hs ex_fly)))
+    = TV (VChecksum 3 4 (48 + 58) (bs "sub/V3__s.sql") Edited).
+Proof.
+  vm_compute. repeat split; reflexivity.
+Qed.
+
+(* archive round trip: name-ordered directory keeps its outcome; the Flyway witness loses it (toy hash) *)
+Example ex_archive :
+  all_sql ex_gm = true /\ sorted_strict ex_gm = true /\
+  validate_store toy_hs (unarchive (archive (ex_sum ex_gm) ex_gm)) = VOk /\
+  validate_tree toy_hs FFlyway (tree_put_sum wf_tree (marshal toy_hs (newhash toy_hs wf_d))) = TV VOk /\
+  archive_tree FFlyway (tree_put_sum wf_tree (marshal toy_hs (newhash toy_hs wf_d))) = Some (archive (ex_sum wf_d) wf_d) /\
+  validate_store toy_hs (unarchive (archive (ex_sum wf_d) wf_d)) = VChecksum 2 2 48 (bs "V10__c.sql") Added.
+Proof. vm_compute. repeat split; reflexivity. Qed.
+
+(* checkpoint readers: the last of two checkpoints *)
+Example ex_checkpoint :
+  let is_ck (f : file) := ex_is_ck (snd f) in
+  let fs := [(bs "1.sql", bs "A;"); (bs "2.sql", ck_c); (bs "3.sql", bs "B;"); (bs "4.sql", ck_c); (bs "5.sql", bs "C;")] in
+  existsb is_ck fs = true /\
+  files_from_last_checkpoint is_ck fs = Some [(bs "4.sql", ck_c); (bs "5.sql", bs "C;")] /\
+  files_from_last_checkpoint is_ck [(bs "1.sql", bs "A;")] = Some [(bs "1.sql", bs "A;")].
+Proof. vm_compute. repeat split; reflexivity. Qed.
+
+(* round 5: reasons with sum-ignored files and for a compound edit (toy hash) *)
+Example ex_reason_ignored :
+  (* ex_d = 1_a, 2_b (sum-ignored), 3_c: editing 3_c -> line 3 of 2 hashed files, after one sum line *)
+  hashed_names ex_d = [bs "1_a.sql"; bs "3_c.sql"] /\
+  validate toy_hs [(bs "1_a.sql", bs "CREATE TABLE a;" ++ [NL]); (bs "2_b.sql", ign_header ++ bs "X;" ++ [NL]); (bs "3_c.sql", bs "Z;" ++ [NL])] (ex_sum ex_d)
+    = VChecksum 3 2 (48 + 56) (bs "3_c.sql") Edited /\
+  (* compound edit of ex_p = 1_a, 3_c: 1_a kept, 2_x added, 3_c edited: the first differing line is 3_c's,
+     whose name is now at index 2, so the file at index 1 is reported as added *)
+  validate toy_hs [(bs "1_a.sql", bs "CREATE TABLE a;" ++ [NL]); (bs "2_x.sql", bs "N;"); (bs "3_c.sql", bs "Z;")] (ex_sum ex_p)
+    = VChecksum 3 2 (48 + 56) (bs "2_x.sql") Added /\
+  (* trailing hashed file added *)
+  validate toy_hs (ex_p ++ [(bs "4_d.sql", bs "D;")]) (ex_sum ex_p) = VChecksum 4 2 (48 + 56 + 56) (bs "4_d.sql") Added.
+Proof. vm_compute. repeat split; reflexivity. Qed.
+
+(* round 5: checkDir.  The golang-migrate tree hashed by golang-migrate validates under ?format=golang-migrate,
+   also when --dir-format says otherwise; is refused by Validate under the atlas reader; unknown format / scheme,
+   a parse error and a missing directory never reach Validate *)
+Example ex_check_dir :
+  let t := tree_put_sum ex_tree (marshal toy_hs (newhash toy_hs ex_gm)) in
+  check_dir_url toy_hs true s_file (Some s_golang_migrate) [] true t = PValidated (TV VOk) /\
+  check_dir_url toy_hs true s_file (Some s_golang_migrate) s_flyway true t = PValidated (TV VOk) /\
+  check_dir_url toy_hs true s_file None s_golang_migrate true t = PValidated (TV VOk) /\
+  (exists l tot p f r, check_dir_url toy_hs true s_file None [] true t = PValidated (TV (VChecksum l tot p f r))) /\
+  check_dir_url toy_hs true s_file (Some (bs "bogus")) s_golang_migrate true t = PErrOpen /\
+  check_dir_url toy_hs true (bs "ftp") None [] true t = PErrOpen /\
+  check_dir_url toy_hs true [] None [] true t = PErrOpen /\
+  check_dir_url toy_hs false s_file None [] true t = PErrParse /\
+  check_dir_url toy_hs true s_file None [] false t = PErrNotExist /\
+  check_dir_url toy_hs true s_mem None [] false t = PValidated (TV VOk).
+Proof. vm_compute. repeat split; try reflexivity. do 5 eexists. reflexivity. Qed.
+
+(* round 5: the hypotheses of C06_flyway_read_edit_changes are met by sub/V3__s.sql of ex_tree *)
+Example ex_flyway_edit :
+  let t1 := firstn 9 ex_tree in let t2 := skipn 10 ex_tree in
+  ex_tree = t1 ++ ([bs "sub"; bs "V3__s.sql"], KFile (bs "S3;")) :: t2 /\
+  In ([bs "sub"; bs "V3__s.sql"], bs "S3;") (flyway_selected ex_tree) /\
+  flyway_files (t1 ++ ([bs "sub"; bs "V3__s.sql"], KFile (bs "X;")) :: t2) <> flyway_files ex_tree.
+Proof. vm_compute. split; [reflexivity|]. split; [tauto|discriminate]. Qed.
